@@ -64,6 +64,11 @@ CLAIMED = {
    note="ngrids = nalpha = 2; Gaussian-moment lemma trusted; documented kernels transcribed; NOT claimed: version-i kernel integrals of convolutions.c, SDMX fit accuracy, fast-vs-slow path agreement, convergence under refinement.",
    technique="symbolic execution of clang LLVM IR (own interpreter) via the repository's ctypes wrapper + z3; replay against the freshly compiled library",
    design="4/C02"),
+ "C05": dict(
+   text="Serial semantics: clang's LLVM IR of the forward and of the backward C routine is executed on symbolic vectors with zero-initialised outputs and concrete layout data; the structs they read (atc_basis_set, convolution_collection) are built by the freshly compiled real library through ATCBasis / ConvolutionCollection(K) and read from process memory. z3 decides <A x, y> == <x, B y> as an exact bilinear identity for reduce_angc_to_ylm/reduce_ylm_to_angc (through dgemm_, stride > nalpha, offsets 0 and 1), contract_rad_to_orb/contract_orb_to_rad, multiply_atc_integrals and multiply_atc_integrals_vk (fwd/bwd), and for the Gaussian plan's interpolation-coefficient transform (fwd/bwd, in place and copy, symbolic SPD matrix); writes outside the [offset, offset+nalpha) window are shown impossible; the interpreter is validated against the compiled .so on concrete inputs.",
+   note="2 atoms, lmax 1, nalpha 2; NOT covered in this round (listed in evidence): spline projection, l+1 interpolation terms, orbital<->grid interpolation, SDMX contractions; thread count is C10.",
+   technique="symbolic execution of clang LLVM IR in hybrid memory mode (own interpreter) + z3 polynomial identity; translation validation against the compiled library",
+   design="4/C05"),
 }
 
 NOT_YET = {}
